@@ -27,6 +27,9 @@ SHAPES_INT = [
     ("both", [(10, 300)]),
     ("adjacent3", [(10, 100), (100, 300), (300, 0)]),
     ("adjacent-from-0", [(0, 100), (100, 41000)]),
+    # windows that contain no temperature: a fit quoted at one temperature (KIDA's "298 298"), bounds the wrong way round
+    ("empty-window", [(298, 298)]),
+    ("inverted", [(300, 10)]),
 ]
 SHAPES_REAL = [
     ("none", [(-1.0, -1.0)]),
@@ -84,7 +87,8 @@ def dexp(v):
 
 SHAPES_THOROUGH = [
     ("adjacent4", [(5, 20), (20, 100), (100, 1000), (1000, 0)]),
-    ("empty-window", [(10, 10)]),
+    ("empty-window-10", [(10, 10)]),
+    ("inverted-adjacent", [(300, 299)]),
     ("neg-lower-pos-upper", [(-5, 300)]),
     ("one-kelvin", [(1, 2), (2, 3)]),
 ]
